@@ -87,6 +87,8 @@ def jobs(tier):
         J.append(_cfg('condconst-N2', 2, 2, 3, 'const', 'const', tier))
         J.append(_cfg('condfresh-N1', 1, 2, 3, 'const', 'fresh', tier))
         J.append(_cfg('condfresh-N2', 2, 1, 3, 'const', 'fresh', tier))
+        J.append(_cfg('condcontainer-N2', 2, 1, 3, 'const', 'fresh', tier,
+                      container_cond=True))
         J.append(_cfg('wide-N2', 2, 1, 10 ** 6, 'const', 'none', tier, K=4))
         for p0 in (True, False):
             for p1 in (True, False):
@@ -124,6 +126,8 @@ def jobs(tier):
         J.append(_cfg('condfresh-N2', 2, 2, 3, 'const', 'fresh', tier))
         J.append(_cfg('condfresh-adaptive-N2', 2, 1, 3, 'adaptive', 'fresh',
                       tier))
+        J.append(_cfg('condcontainer-N2', 2, 2, 3, 'const', 'fresh', tier,
+                      container_cond=True))
         J.append(_cfg('wide-N2', 2, 2, 10 ** 6, 'const', 'none', tier, K=6))
         J.append(_cfg('wide-adaptive-N2', 2, 1, 10 ** 6, 'adaptive', 'none',
                       tier, K=5))
